@@ -79,10 +79,12 @@ def gen(rng, tier):
         else:          # out of range
             s = rng.randrange(-n - 2, n + 3); e = rng.randrange(-n - 2, n + 3)
         kind = rng.choice(["util", "util", "construct", "construct", "infer"])
-        form = rng.choice(["nd", "list", "tuple"] + (["dict"] if kind == "construct" else []))
+        form = rng.choice(["nd", "list", "tuple"] + (["dict", "dict_tuple", "dict_list"] if kind == "construct" else []))
         if kind == "infer":
             form = "nd"
         cases.append(mk(kind, form, shape, s, e))
+        if kind == "infer" and rng.random() < 0.3:
+            cases[-1]["preset"] = True
     # ndarray shapes of narrow integer dtypes whose merged product exceeds the dtype's range
     for _ in range(40 if tier == "quick" else 600):
         dt = rng.choice(["int8", "uint8", "int16", "uint16", "int32"])
@@ -159,7 +161,7 @@ def run(c):
     a = s + n if s < 0 else s
     b = e + n if e < 0 else e
     nontriv = exp is not None and n >= 2 and (b > a or s < 0 or e < 0)
-    sig = (c["kind"], c["form"], tuple(shape), s, e, c.get("pre"), c.get("stale"))
+    sig = (c["kind"], c["form"], tuple(shape), s, e, c.get("pre"), c.get("stale"), c.get("preset"))
     fail = None
     if c["kind"] == "util":
         try:
@@ -195,6 +197,28 @@ def run(c):
                 elif tval(res[1].input_type, "input") != list(shape):
                     fail = f"Flatten({shape}).input_type = {res[1].input_type}"
                 if not fail and not c.get("stale"):
+                    # ... and survives serialisation: dictionary form and file
+                    import io
+                    import nir as _nir
+                    from .common import quiet as _quiet
+                    for how in ("dict", "file"):
+                        try:
+                            with _quiet():
+                                g0 = _nir.NIRGraph(nodes={"f": try_build(r)[1]}, edges=[])
+                                if how == "dict":
+                                    g1 = _nir.NIRGraph.from_dict(g0.to_dict())
+                                else:
+                                    bio = io.BytesIO()
+                                    _nir.write(bio, g0)
+                                    g1 = _nir.read(bio)
+                            got4 = tval(g1.nodes["f"].output_type, "output")
+                            if got4 != exp:
+                                fail = f"Flatten({shape}, {s}, {e}) [{c['form']}] after a {how} round trip declares output {got4}, expected {exp}"
+                        except BaseException as ex:  # noqa: BLE001
+                            fail = f"Flatten({shape}, {s}, {e}) [{c['form']}]: {how} round trip raised {type(ex).__name__}: {ex}"
+                        if fail:
+                            break
+                if not fail and not c.get("stale"):
                     # the typed node as LAST element of from_list (the auto Output is built from its type), the graph then extended
                     # so that another, differently shaped node also feeds the Output, and inferred: the Flatten's own declaration
                     # must still be what construction computed
@@ -225,7 +249,27 @@ def run(c):
                         fail = (f"a second Flatten({shape}, {s}, {e}) built after the first one's output type was overwritten "
                                 f"in place has output {got2}, expected {exp}")
         return Outcome(coq, fail, nontriv, sig)
-    res = run_infer(r)
+    if c.get("preset"):
+        # the Flatten is created without a type; its input_type is then assigned by hand (same value the predecessor has) and
+        # the graph inferred: the output must be derived all the same
+        from .common import quiet as _q, time_limit as _tl, Timeout as _TO
+        b = try_build(r)
+        if b[0] == "ok":
+            g0 = b[1]
+            g0.nodes["fl"].input_type = {"input": np.array(shape, dtype=np.int64)}
+            raised, name = False, None
+            try:
+                with _tl(10), _q():
+                    g0.infer_types()
+            except _TO:
+                raise
+            except BaseException as ex:  # noqa: BLE001
+                raised, name = True, type(ex).__name__
+            res = ("ok", g0, raised, name)
+        else:
+            res = b
+    else:
+        res = run_infer(r)
     coq = f"(FlatG {cinfer(r, res)})"
     if exp is not None:
         if res[0] != "ok" or res[2]:
